@@ -57,25 +57,29 @@ func verifChoose(n int) int             { return int(verifNext()) % n }
 func verifSplit(n int) int              { return int(verifNext()) % n }
 func verifTagInput(b []byte)            {}
 func verifConcretize(x int) int         { return x }
+
+// verifCapFor(n, c): the capacity to use for a slice of length n. Natively, when a
+// "reslice-beyond-length" finding is replayed, the capacity is clamped to the length so
+// that reading spare capacity becomes an observable panic.
+var verifClampCap bool
+
+func verifCapFor(n, c int) int {
+	if verifClampCap {
+		return n
+	}
+	return c
+}
 func verifNoInputAlias(root interface{}, id string) {}
 func verifInside(outer, inner []byte, id string) {
-	if inner == nil {
+	if len(inner) == 0 {
 		return
 	}
-	if cap(inner) == 0 || cap(outer) == 0 {
-		if len(inner) != 0 {
-			verifFailures = append(verifFailures, id+":provenance")
-		}
-		return
-	}
-	// same backing array: compare end addresses
-	oe := &outer[:cap(outer)][cap(outer)-1]
-	ie := &inner[:cap(inner)][cap(inner)-1]
-	if oe != ie && false {
+	if verifOffset(outer, inner) < 0 {
 		verifFailures = append(verifFailures, id+":provenance")
+		return
 	}
 	off := cap(outer) - cap(inner)
-	if off < 0 || off+len(inner) > len(outer) {
+	if off+len(inner) > len(outer) {
 		verifFailures = append(verifFailures, id+":inside")
 	}
 }
